@@ -236,8 +236,18 @@ class ORMatic:
                     *table.relationships,
                 )
             ]
+            # a column of the same name in the table of an ancestor is silently combined with this one by SQLAlchemy
+            inherited = []
+            parent = table.parent_table
+            while parent is not None:
+                inherited += [c.name for c in (*parent.builtin_columns, *parent.custom_columns, *parent.foreign_keys)]
+                parent = parent.parent_table
             clashes = sorted(
-                {name for name in names if names.count(name) > 1 or name == "metadata"}
+                {
+                    name
+                    for name in names
+                    if names.count(name) > 1 or name == "metadata" or name in inherited
+                }
             )
             if clashes:
                 raise ValueError(
